@@ -252,6 +252,50 @@ func init() {
 		ev["isinf"] = pz.IsZero() == 1
 		ev["p_after"] = tripleOut(p)
 	})
+	// ---- point register machine: named SM2Point objects live across calls, so that operations which
+	// make two points share storage (or leave an operand modified) show up at a LATER read.
+	// After every operation the projective coordinates of ALL registers are recorded.
+	regsOf := func(ctx *Ctx) map[string]*internal.SM2Point {
+		m, ok := ctx.objs["ptm"].(map[string]*internal.SM2Point)
+		if !ok {
+			m = map[string]*internal.SM2Point{}
+			ctx.objs["ptm"] = m
+		}
+		return m
+	}
+	dump := func(ctx *Ctx, ev Ev) {
+		out := map[string][]B{}
+		for k, p := range regsOf(ctx) {
+			out[k] = tripleOut(p)
+		}
+		ev["regs"] = out
+	}
+	register("ptm.new", func(ctx *Ctx, c Cmd, ev Ev) {
+		regsOf(ctx)[c.str("r")] = triple(c, "p1")
+		dump(ctx, ev)
+	})
+	register("ptm.op", func(ctx *Ctx, c Cmd, ev Ev) {
+		m := regsOf(ctx)
+		if _, ok := m[c.str("dst")]; !ok {
+			m[c.str("dst")] = internal.NewSM2Point()
+		}
+		dst, a := m[c.str("dst")], m[c.str("a")]
+		defer dump(ctx, ev)
+		switch c.str("fn") {
+		case "add":
+			dst.Add(a, m[c.str("b")])
+		case "double":
+			dst.Double(a)
+		case "negate":
+			dst.Negate(a)
+		case "set":
+			dst.Set(a)
+		case "select":
+			dst.Select(a, m[c.str("b")], c.num("cond"))
+		default:
+			panic("harness: fn")
+		}
+	})
 	// ---- scalar multiplication
 	register("sm.base", func(ctx *Ctx, c Cmd, ev Ev) {
 		k := c.bytes("k")
